@@ -131,6 +131,28 @@ pub fn bundle_version_name(v: BundleVersion) -> &'static str {
     }
 }
 
+/// Which components a version's wire format has (protocol specification 7.1 / ZIP 225 / the pinned
+/// tree's v6), written here independently of `TxVersion::has_*` (code under test for C03).
+pub fn format_has_overwinter(v: TxVersion) -> bool {
+    !matches!(v, TxVersion::Sprout(_))
+}
+pub fn format_has_sprout(v: TxVersion) -> bool {
+    match v {
+        TxVersion::Sprout(n) => n >= 2,
+        TxVersion::V3 | TxVersion::V4 => true,
+        TxVersion::V5 | TxVersion::V6 => false,
+    }
+}
+pub fn format_has_sapling(v: TxVersion) -> bool {
+    matches!(v, TxVersion::V4 | TxVersion::V5 | TxVersion::V6)
+}
+pub fn format_has_orchard(v: TxVersion) -> bool {
+    matches!(v, TxVersion::V5 | TxVersion::V6)
+}
+pub fn format_has_ironwood(v: TxVersion) -> bool {
+    matches!(v, TxVersion::V6)
+}
+
 /// Canonical Orchard proof length for `n` actions (ZIP 225: 2720 + 2272 n).
 pub fn canonical_orchard_proof_len(n: usize) -> usize {
     2720 + 2272 * n
@@ -483,7 +505,7 @@ impl TxGen {
     }
 
     fn orchard_parts(&self, r: &mut Salt, n: usize, pool: ValuePool, branch: BranchId, proof_len: Option<usize>) -> Result<OrchardParts, String> {
-        let bv = orchard_bundle_version(branch, pool).ok_or_else(|| format!("no {:?} pool under branch {}", pool, branch_name(branch)))?;
+        let bv = orchard_bundle_version(branch, pool).ok_or_else(|| format!("shape: no {:?} pool under branch {}", pool, branch_name(branch)))?;
         let ironwood = pool == ValuePool::Ironwood;
         let src = if ironwood { &self.iw_actions } else { &self.actions };
         let k = r.below(src.len());
@@ -493,12 +515,12 @@ impl TxGen {
         if ironwood && r.below(3) != 0 {
             byte |= 0b100;
         }
-        let flags = Flags::from_byte(byte, bv).ok_or("flag byte not representable")?;
+        let flags = Flags::from_byte(byte, bv).ok_or("shape: flag byte not representable")?;
         let plen = proof_len.unwrap_or_else(|| canonical_orchard_proof_len(n));
         Ok(OrchardParts { actions, flags, value_balance: self.amount(r), anchor, proof: r.bytes(plen), binding_sig, bundle_version: bv })
     }
 
-    fn joinsplit(r: &mut Salt, use_groth: bool) -> sprout::JsDescription {
+    fn joinsplit(r: &mut Salt, use_groth: bool) -> Result<sprout::JsDescription, String> {
         // JsDescription has no public constructor; its public reader is given a blob whose two
         // leading amounts are in range (everything else in a JoinSplit is opaque to the codec).
         let len = 8 + 8 + 32 + 64 + 64 + 32 + 32 + 64 + if use_groth { GROTH_PROOF_SIZE } else { 296 } + 2 * 601;
@@ -511,7 +533,7 @@ impl TxGen {
         };
         blob[..8].copy_from_slice(&a.to_le_bytes());
         blob[8..16].copy_from_slice(&b.to_le_bytes());
-        sprout::JsDescription::read(&blob[..], use_groth).expect("a JoinSplit blob with in-range amounts")
+        sprout::JsDescription::read(&blob[..], use_groth).map_err(|e| format!("JsDescription::read refuses a JoinSplit with in-range amounts ({a}, {b}): {e}"))
     }
 
     /// The parts of a well-formed transaction of the given shape (next salt of an internal counter).
@@ -524,21 +546,21 @@ impl TxGen {
     /// (generator seed, shape, salt).
     pub fn parts_with(&self, shape: &Shape, salt: u64) -> Result<TxParts, String> {
         let v = shape.version;
-        if !v.has_sapling() && (shape.n_spends > 0 || shape.n_outputs > 0) {
-            return Err("the version has no Sapling bundle".into());
+        if !format_has_sapling(v) && (shape.n_spends > 0 || shape.n_outputs > 0) {
+            return Err("shape: the version has no Sapling bundle".into());
         }
-        if !v.has_orchard() && shape.n_orchard > 0 {
-            return Err("the version has no Orchard bundle".into());
+        if !format_has_orchard(v) && shape.n_orchard > 0 {
+            return Err("shape: the version has no Orchard bundle".into());
         }
-        if !v.has_ironwood() && shape.n_ironwood > 0 {
-            return Err("the version has no Ironwood bundle".into());
+        if !format_has_ironwood(v) && shape.n_ironwood > 0 {
+            return Err("shape: the version has no Ironwood bundle".into());
         }
-        if !v.has_sprout() && shape.n_joinsplits > 0 {
-            return Err("the version has no Sprout bundle".into());
+        if !format_has_sprout(v) && shape.n_joinsplits > 0 {
+            return Err("shape: the version has no Sprout bundle".into());
         }
         for (l, n) in [(&shape.script_sig_lens, shape.n_vin), (&shape.script_pubkey_lens, shape.n_vout)] {
             if l.as_ref().is_some_and(|l| l.len() != n) {
-                return Err("script length list does not match the count".into());
+                return Err("shape: script length list does not match the count".into());
             }
         }
         let r = &mut Salt(mix(salt ^ 0xC03));
@@ -586,8 +608,8 @@ impl TxGen {
             None
         };
         let sprout = if shape.n_joinsplits > 0 {
-            let use_groth = v.has_sapling();
-            let joinsplits = (0..shape.n_joinsplits).map(|_| Self::joinsplit(r, use_groth)).collect();
+            let use_groth = format_has_sapling(v);
+            let joinsplits = (0..shape.n_joinsplits).map(|_| Self::joinsplit(r, use_groth)).collect::<Result<Vec<_>, _>>()?;
             let joinsplit_pubkey: [u8; 32] = r.bytes(32).try_into().unwrap();
             let joinsplit_sig: [u8; 64] = r.bytes(64).try_into().unwrap();
             Some(sprout::Bundle { joinsplits, joinsplit_pubkey, joinsplit_sig })
@@ -596,7 +618,7 @@ impl TxGen {
         };
         let lock_time = self.word(r);
         // pre-Overwinter formats have no expiry field
-        let expiry_height = if v.has_overwinter() { self.word(r) } else { 0 };
+        let expiry_height = if format_has_overwinter(v) { self.word(r) } else { 0 };
         let mut p = TxParts { version: v, branch: shape.branch, lock_time, expiry_height, vin, vout, sprout, sapling, orchard, ironwood };
         if matches!(v, TxVersion::V5 | TxVersion::V6) {
             p.unify_sapling_anchor();
@@ -626,7 +648,7 @@ impl TxGen {
                 let bv = orchard_bundle_version(branch, pool).ok_or("pool not available under the branch")?;
                 let byte = u8::from(o.flags.spends_enabled()) | (u8::from(o.flags.outputs_enabled()) << 1)
                     | if pool == ValuePool::Ironwood && o.flags.cross_address_enabled() { 0b100 } else { 0 };
-                o.flags = Flags::from_byte(byte, bv).ok_or("flag byte not representable")?;
+                o.flags = Flags::from_byte(byte, bv).ok_or("shape: flag byte not representable")?;
                 o.bundle_version = bv;
             }
         }
